@@ -71,7 +71,7 @@ def client_number(rng, fmt):
 
 def driver_number(rng, fmt):
     if is_sexa(fmt):
-        return rng.choice([0.0, 0.5, 1.25, 12.5, 23.999, 100.75, 359.5, 45.0])
+        return rng.choice([0.0, 0.5, 1.25, 12.5, 23.999, 100.75, 359.5, 45.0, -0.5, -0.25, -12.5, -89.75])
     if fmt.endswith("d"):
         return rng.choice([0, 1, -5, 42, 1000, 7])
     return rng.choice([0.0, 1.5, -2.25, 3.14159, 1e3, 0.001, 99.99, -0.5])
@@ -101,3 +101,32 @@ def indi_number_value(text):
     for i, p in enumerate(parts):
         val += float(p) / (60 ** i)
     return -val if neg else val
+
+
+def render_tolerance(fmt):
+    """Half the resolution of what a format can show (independent of the library's renderer)."""
+    if is_sexa(fmt):
+        return sexa_resolution(fmt) / 2
+    m = re.match(r"^%[-+ 0#]*\d*(?:\.(\d+))?([dif])$", fmt)
+    if not m:
+        return None
+    if m.group(2) in "di":
+        return 0.5
+    prec = int(m.group(1)) if m.group(1) is not None else 6
+    return 0.5 * 10 ** (-prec)
+
+
+def denotes(text, value, fmt):
+    """Does the rendered text denote `value` (INDI conventions: the sign applies to the whole magnitude) within the format's resolution?
+    -> True / False / None (cannot judge)."""
+    tol = render_tolerance(fmt)
+    if tol is None or text is None or value is None:
+        return None
+    try:
+        got = indi_number_value(text)
+    except Exception:
+        return False
+    try:
+        return abs(got - float(value)) <= tol * 1.0000001 + 1e-12 * max(1.0, abs(float(value)))
+    except OverflowError:
+        return None  # integers beyond float range: not judged here
